@@ -1,26 +1,26 @@
 #!/usr/bin/env python3
 import json
 checks = {
- "C01": ("termmc", "bounded exhaustive exploration of every constructor composition (full alphabet of library / stdlib / pkg-errors / OS / net / gRPC / user error kinds) up to the stated depth, every REG string in every slot, x hop sequences hop_K^k, on the real code; differential oracle: node-by-node shape equality with the origin, wire fixpoint from the 2nd encoding on", "bounded by term depth, REG alphabet and hop count reported in the evidence; gogo protobuf marshalling is deterministic"),
+ "C01": ("termmc", "bounded exhaustive exploration of every constructor composition (full alphabet of library / stdlib / pkg-errors / OS / net / gRPC / user error kinds) up to the stated depth, every REG string in every slot, x hop sequences hop_K^k, on the real code; differential oracle: node-by-node shape equality with the origin, wire fixpoint from the 2nd encoding on; a twin encoded before any other use arrives the same", "bounded by term depth, REG alphabet and hop count reported in the evidence; gogo protobuf marshalling is deterministic"),
  "C02": ("termmc", "exhaustive exploration of (error, reference) pairs x transport histories (knowing processes, every singleton / the full set / all subsets of unknown types, evaluation at the unknowing process) on the real Is; oracle Is(after)=Is(before) with the reason-aware exemptions the statement names", "references: sentinels, nodes, fresh and perturbed copies; exemptions counted in the evidence; unknowing processes simulated by a registry-view hook"),
  "C03": ("termmc", "exhaustive taint exploration: every composition up to the bound x every hostile string in every unsafe slot x stages (local, k hops, unknowing hop, payload-blind hop); no unsafe token may occur in any PII-free output (redacted renderings, safe details, wire reportable payload / type names, every Sentry field)", "safe/unsafe classification of constructor arguments taken from the library documentation; hostile alphabet as listed in tm/term.go"),
  "C04": ("termmc", "exhaustive exploration of trees x every subset of 'types unknown to the intermediary' x {origin->U(S)->K vs origin->K}; text, type names, safe details, byte-exact re-encoding, and equality of the final receiver's view (text, Is, annotations, %+v)", "unknowing process = registries lacking the keys (hook), cross-validated against hook-free wire renaming on every state"),
- "C05": ("faultmc", "exhaustive structured fault enumeration over every registered decoder key (from the live registries) x carrier form x payload fault x details fault x message type x embedding position, plus every single/pair field substitution on every wire message of the bounded term space; DecodeError and a 23-observer battery must not panic", "nested errors structurally complete (the property's precondition); arbitrary bytes are replaced by exhaustive structured substitution"),
+ "C05": ("faultmc", "exhaustive structured fault enumeration over every registered decoder key (from the live registries) x carrier form x payload fault x details fault x message type x embedding position, plus every single/pair field substitution on every wire message of the bounded term space; plus every register/unregister history of up to 3 (thorough 4) calls on a key in each decoder registry; DecodeError and a 23-observer battery must not panic", "nested errors structurally complete (the property's precondition); arbitrary bytes are replaced by exhaustive structured substitution"),
  "C06": ("termmc", "exhaustive exploration of compositions x hostile strings x {local, decoded, opaque} x verbs; marker grammar per line, congruence with the plain rendering for regular strings, refusal of %q/%x/%X", "bounded by depth and the hostile alphabet"),
  "C07": ("termmc", "exhaustive exploration of every hidden position (barrier cause, secondary error, error-valued format argument, mark reference) of every composition, local and after transfer; non-interference oracle: replacing the hidden sub-tree by a plain leaf of equal text changes no structural observer", "structural observers = every cause-analysis function and accessor of the public API (tm.Annotations + Is/As/HasType/If)"),
  "C08": ("termmc", "all ordered pairs over a pool of compositions, their nodes, sentinels, nil and systematically perturbed copies on the real Is/IsAny, compared with an independent reference implementation of the documented relation; reflexivity, monotonicity under every wrapper, IsAny = disjunction, nil law", "reference relation written from the doc comment using only exported functions"),
  "C09": ("termmc+corpus", "exhaustive exploration of compositions (local, decoded) x ~900 verb/flag/width/precision formats against fmt applied to Error(); structural oracle for %+v (entries, types line, own details); plus replay of the repository's 1.2k-case vetted formatting corpus under a closure-name normalisation overlay", "%p/%T out of scope (handled by fmt); headline clause decided for newline-free messages, corpus covers multi-line ones"),
  "C10": ("termmc", "exhaustive exploration of compositions against a compositional text model, node by node; transparency of annotation wrappers for text, root cause, Is, As; exhaustive constructor x nil table cross-checked with an AST scan of /repo", "text model per constructor written from the README/doc comments (tm/ops.go)"),
- "C11": ("termmc", "exhaustive exploration of compositions x hops 1..k; the full accessor vector (hints, details, links, keys, domain, tags, flags, codes, OS predicates, per-layer safe details, reportable frames, one-line source) is identical before and after", "barrier and secondary layers' safe details excluded as the statement says"),
- "C12": ("termmc", "exhaustive retention exploration: every safe slot's token must be present in the Sentry report or GetAllSafeDetails locally and after k hops, including behind barriers and in secondary errors", "safe slots per the library documentation"),
+ "C11": ("termmc", "exhaustive exploration of compositions x hops 1..k; the full accessor vector (hints, details, links, keys, domain, tags, flags, codes, OS predicates, per-layer safe details, reportable frames, one-line source) is identical before and after; plus an order pass: the pool of depth<=2 terms observed front to back and back to front in fresh processes must give the same observations (no dependence on which other errors were looked at before)", "barrier and secondary layers' safe details excluded as the statement says"),
+ "C12": ("termmc", "exhaustive retention exploration: every safe slot's token and every locally captured stack frame must be present in the Sentry report or GetAllSafeDetails locally and after k hops, including behind barriers and in secondary errors", "safe slots per the library documentation"),
  "C13": ("termmc", "exhaustive exploration of compositions with multi-cause nodes at every position, nested, x {local, k hops, unknowing hop}: tree semantics of Is/IsAny/As per node with branch order, leaf behaviour of Unwrap, branch preservation under transfer, visibility in %+v", "bounded by depth"),
  "C14": ("termmc", "exhaustive exploration of compositions; differential oracle against the real standard library errors.Is/As/Unwrap and pkg/errors.Cause", "agreement (not only implication) required on chains the other package can traverse"),
  "C15": ("termmc", "exhaustive exploration of compositions (local, decoded, opaque) on the real BuildSentryReport; counting and ordering relations between layers, stacks, exceptions, composition lines and type lines", "per-layer stacks obtained with the public GetReportableStackTrace"),
- "C16": ("callmc", "exhaustive enumeration of every exported stack-capturing / domain-computing function (cross-checked by an AST reachability scan) x depth 0..3 x 2 call paths through non-inlinable helpers in distinct packages; plus a schedule dimension: 2 (thorough 3) threads calling the domain / stack constructors concurrently from different packages (identical site files in 4 directories, 1-2 calls each, same site twice, same site from two threads), every interleaving up to the preemption bound (quick 2, thorough 3) under C18's controlled scheduler on the instrumented library, each from a stated prewarmed state and followed by a sequential re-check of every site; oracle: every call returns what it returns alone and names its own caller's package / frame; separate free-running -race pass of the same bodies", "compiler must not inline the //go:noinline helpers; scheduling points are library statement boundaries and sync/atomic operations"),
- "C17": ("vermc", "exhaustive exploration of code-version assignments (old/new/other-rename/unknowing) to sender, intermediary, receiver x all registration orders of rename chains of length <= 3 for leaf and wrapper types, on the real registries", "a 'process' is a registry + migration-table configuration installed around each encode/decode step"),
+ "C16": ("callmc", "exhaustive enumeration of every exported stack-capturing / domain-computing function (cross-checked by an AST reachability scan) x depth 0..3 x 4 call paths (plain function, method via interface, generic function, method of a generic type; one link under a source path with colons) through non-inlinable helpers in distinct packages; plus a schedule dimension: 2 (thorough 3) threads calling the domain / stack constructors concurrently from different packages (identical site files in 4 directories, 1-2 calls each, same site twice, same site from two threads), every interleaving up to the preemption bound (quick 2, thorough 3) under C18's controlled scheduler on the instrumented library, each from a stated prewarmed state and followed by a sequential re-check of every site; oracle: every call returns what it returns alone and names its own caller's package / frame; separate free-running -race pass of the same bodies", "compiler must not inline the //go:noinline helpers; scheduling points are library statement boundaries and sync/atomic operations"),
+ "C17": ("vermc", "exhaustive exploration of code-version assignments (old/new/other-rename/unknowing) to sender, intermediary, receiver x all registration orders of rename chains of length <= 3 for leaf and wrapper types (plain, proto-native leaf, marker-bearing), decoder-less processes, middle layers and forwarded marks, on the real registries", "a 'process' is a registry + migration-table configuration installed around each encode/decode step"),
  "C18": ("schedmc", "stateless model checking of the real code under a controlled cooperative scheduler (scheduling point before every statement of every library function): every pair of observers on a shared error, all interleavings up to the preemption bound; oracle: result equals the solo result, no panic, no deadlock; separate free-running -race pass for data races", "interleavings finer than one source statement and data races are covered only by the auxiliary -race pass (dynamic analysis, not enumeration)"),
  "C19": ("termmc", "exhaustive exploration of compositions of list-contributing constructors with repeated / empty texts, local and after a hop, against an independent list model", "model written from the doc comments"),
- "C20": ("rpcmc", "exhaustive exploration of compositions returned by a real handler behind the real server/client interceptors over an in-memory gRPC connection; differential oracle against direct EncodeError/DecodeError; status code and pass-through clauses", "gRPC's own goroutines are not under the controlled scheduler; the enumerated dimension is the input"),
+ "C20": ("rpcmc", "exhaustive exploration of compositions returned by a real handler behind the real server/client interceptors over an in-memory gRPC connection; differential oracle against direct EncodeError/DecodeError; (marshalled and in-memory), status code and pass-through clauses; environment answer: the caller's context live or done by the time the reply reaches the client interceptor", "gRPC's own goroutines are not under the controlled scheduler; the enumerated dimension is the input"),
 }
 tech = {
  "termmc": "explicit-state model checking of the implementation: bounded exhaustive enumeration of constructor/transport histories with reference-model oracles",
